@@ -84,6 +84,11 @@ CHECKS = {
          "Corpus of ~930 compiling programs (generated wide programs with k types, interfaces, functions, FBs with methods, programs, tasks; every repository .st file; one case of every ST-core feature): the container never depends on an explored iteration order and all observations are identical across processes and threads.",
          "The hash-seed space and memory layouts cannot be enumerated: (b) is a fixed-size sweep, not an enumeration, and is labelled so in the evidence; (a) is exhaustive only over the hooked encoder collections (currently 0 order-exposing traversals are reached, i.e. the order family holds trivially today).",
          "DESIGN.md §5 C05, §6"),
+ "C06": ("model_checking",
+         "explicit-state breadth-first search over timelines (state = timeline replayed on the real Runtime built from generated CONFIGURATION text; merged on reference-model state + the runtime's task state), level-synchronous across all configurations; oracle = an independent task model implementing the property statement, with every open point of the statement kept as a set of alternative readings that must collectively explain each cycle",
+         "670 (quick) / 4223 (thorough) configurations (1-4 tasks and fixed 6-task sets, INTERVAL absent/0/2/3 ms, PRIORITY 0/1 incl. equal, SINGLE none/g1/g2 incl. shared and mixed periodic+event, un-tasked programs, task-bound FB instance) x all timelines of depth 2-7 over dt in {0,1,2,3,7} ms x SINGLE values: executed task and program sequence and overrun counts of every cycle equal the model's.",
+         "Several programs on one task, SINGLE variables written by programs, a clock moving backwards are not covered.",
+         "DESIGN.md §5 C06"),
 }
 
 NOT_APPLICABLE = {
